@@ -15,8 +15,8 @@ from .c08 import RES, handler_cfg
 from .c12 import _map_to_labels
 
 LEVEL = "exploration"
-SUBJ_ALPHABET = "abcXYZ019-_ .,;:\"'()/#%éß中"
-GROUP_ALPHABET = "abcXYZ019-_ .:()"
+SUBJ_ALPHABET = "abcXYZ019-_ .,;:\"'()/#%éß中!@$^&*+=[]{}|<>?~\\`"
+GROUP_ALPHABET = "abcXYZ019-_ .:()!@$&*+=[]|<>~"
 RULE = (
     "Evaluator configurations (input type, matcher, instance-metric subsets of {DSC,IOU,ASSD,RVD}, global-metric subsets, "
     "decision metric, random edge-case handlers producing NaN/INF/None/0/1, aggregator log_times, evaluator "
@@ -43,10 +43,10 @@ def case_strategy(draw):
     groups = draw(gen.group_defs(name_alphabet=GROUP_ALPHABET)) if grouped else None
     defined = sorted(l for g in groups for l in g["labels"]) if groups else [1, 2, 3, 4]
     it = draw(st.sampled_from(["SEMANTIC", "UNMATCHED_INSTANCE", "MATCHED_INSTANCE"]))
-    imets = draw(st.lists(st.sampled_from(["DSC", "IOU", "ASSD", "RVD"]), min_size=1, max_size=4, unique=True))
+    imets = draw(st.lists(st.sampled_from(["DSC", "IOU", "ASSD", "RVD"]), min_size=0, max_size=4, unique=True))
     gmets = draw(st.lists(st.sampled_from(["DSC", "IOU", "ASSD", "RVD"]), min_size=0, max_size=3, unique=True))
     dec = None
-    if draw(st.integers(0, 2)) == 0:
+    if imets and draw(st.integers(0, 2)) == 0:
         dm = draw(st.sampled_from(imets))
         if dm != "RVD":
             dec = [dm, draw(st.sampled_from([0.0, 0.5, 1.0]))]
